@@ -18,6 +18,7 @@ the 64-byte `Marshal` form, a nil signature (`Signature{}` with nil point) is `-
   recover <k> <js|-> <id> <sig> …        → ok <sig|-> | PANIC
   gen|lgen <k> <js|-> <id> <sig> …         → <add><gen>,… <groupSign|-> | PANIC   (GroupSignGenerator.AddWitnessSign per arrival)
   hashg1 <msg> <refH(m)>                 → <refH(m)>   (Go: the code's H(m); reference = crypto/sha256 + math/big in the harness)
+  deliver <n> <id> <share> <pub> …      → <status,…> <signKey> <groupPubKey|nil>   (groupNodeInfo.handleSharePiece per delivery)
   g2add <P> <Q> | g2mul <P> <k>          → <G2 marshal> (`00` = infinity)
   aggpk <g2base> <k1> …                  → ok <AggregatePubkeys of kᵢ·g₂> | nil
   dkg <msg> <ghash> <hm> <g2base> <k> <n> <m> <js|-> seeds(n) ids(n) coeffs(n·k) arrival(m)   (msg, ghash, seeds: Go only)
@@ -158,6 +159,24 @@ def step (_ : Unit) (line : String) : Unit × String :=
       match ofHex? msg, sig? pt with
       | some _, some (some p) =>
         if G1.isOnCurve curve p && p != .inf then toHex (G1.marshal p) else "bad-op"
+      | _, _ => "bad-op"
+    | "deliver" :: n :: rest =>
+      -- deliver <n> <id> <share> <pub> … : a delivery history for one member's groupNodeInfo
+      let rec pieces? : List String → Option (List (Shamir.Piece G2.Point))
+        | [] => some []
+        | i :: sh :: pb :: more => do
+          let i' ← nat? i
+          let sh' ← nat? sh
+          let pb' ← g2? pb
+          let r' ← pieces? more
+          pure (⟨i', sh', pb'⟩ :: r')
+        | _ => none
+      match dec? n, pieces? rest with
+      | some n', some ps =>
+        if ps.any (fun e => e.id ≥ 2 ^ 256) then "bad-op" else
+        let (st, codes) := Shamir.deliverAll r (G2.add fp) (Shamir.NodeInfo.new n') ps
+        joinWith "," (codes.map toString) ++ " " ++ hexNat st.msk ++ " " ++
+          (match st.gpk with | some q => showG2 q | none => "nil")
       | _, _ => "bad-op"
     | ["g2add", a, b] =>
       match g2? a, g2? b with
